@@ -1,6 +1,7 @@
 """C02 — bounding boxes contain everything that is drawn (structural part)."""
 from mirq import ty_str
 from mirq.origin import Origins, show, walk, decisions, lit_truth
+from mirq.paths import show_fact
 from mirq.pat import match, find, strip_refs
 from mirq.expand import Expander
 from rules.c14 import font_table, font_fields, field_index, MONOFONT
@@ -91,6 +92,7 @@ def run(ctx, rep):
     check_styled_boxes(prog, rep)
     check_text_union(prog, rep)
     check_thick_segment(prog, rep)
+    triangle_collapse(prog, rep)
     from rules import axis
     axis.run_for(ctx.program("default"), rep, 'R02.6', ['src/primitives/rectangle/styled.rs', 'src/primitives/triangle/styled.rs', 'src/primitives/polyline/styled.rs', 'src/primitives/line/styled.rs', 'src/text', 'src/mono_font', 'src/image'], 'bounding boxes and drawn rectangles are built per axis')
 
@@ -313,3 +315,76 @@ def check_thick_segment(prog, rep):
         rep.sample({"rule": "R02.5", "corner_points": sorted(show(x) for x in pts)})
     elif not seen_box:
         rep.fail("R02.5", "edges_bounding_box", "no with_corners path found", status="undecided", at=ebb.span, fn=ebb.path)
+
+
+def triangle_collapse(prog, rep):
+    """R02.7 the thick-stroke triangle is treated as completely filled (its box is then the plain triangle's) as soon as
+    ONE corner closes the hole: is_collapsed is an existential test over the joins of all three corners, each corner
+    tested against the edge opposite to it.  (Path summaries with the search walked once: for / any / position alike.)"""
+    from mirq.paths import Paths, Unsupported, CONTINUES
+    TRI = "embedded_graphics::primitives::triangle::Triangle"
+    ic = prog.method1(TRI, "is_collapsed", None)
+    jn = prog.method1(TRI, "joins", None)
+    vi = field_index(prog, TRI, "vertices")
+    me = ("param", 1, "self")
+    V = lambda k: ("index", ("field", me, vi), ("const", k))
+    # joins: the three cyclic corner triples
+    want = {(2, 0, 1), (0, 1, 2), (1, 2, 0)}
+    got = set()
+    try:
+        for sm in Paths(prog).of(jn):
+            for n in walk(sm.ret):
+                if n[0] == "call" and n[1].endswith("LineJoin::from_points") and len(n[3]) == 5:
+                    ks = tuple(next((k for k in range(3) if a == V(k)), None) for a in n[3][:3])
+                    got.add(ks)
+                    if n[3][3:] != (("param", 2, "stroke_width"), ("param", 3, "stroke_offset")):
+                        got.add(("other-width",))
+    except Unsupported:
+        pass
+    rep.check(got == want, "R02.7", "triangle:joins", "Triangle::joins must build the join of every corner from its cyclic neighbours (p3,p1,p2), (p1,p2,p3), (p2,p3,p1) with the given stroke; found %s" % sorted(got, key=str), at=jn.span, fn=jn.path)
+    bad = []
+    seen = set()
+    try:
+        summs = Paths(prog, loops="once").of(ic)
+    except Unsupported as e:
+        summs = []
+        bad.append("cannot summarise is_collapsed: %s" % e)
+    joins_call = ("call", "*Triangle::joins", "_", (me, ("param", 2, "stroke_width"), ("param", 3, "stroke_offset")))
+    for sm in summs:
+        nxt = [fct for fct in sm.facts if fct[0] == "variant" and fct[1][0] == "call" and fct[1][1].split("::")[-1] == "next"]
+        if len(nxt) != 1 or not any(match(n, joins_call) is not None for n in walk(nxt[0][1])):
+            bad.append("a path does not walk the joins of all corners (self.joins(stroke_width, stroke_offset))")
+            continue
+        rest = [fct for fct in sm.facts if fct is not nxt[0]]
+        if nxt[0][2] == ("None",):
+            seen.add("none")
+            if sm.ret != ("const", False) or rest:
+                bad.append("with no corner closing the hole the triangle must not count as collapsed (returns %s)" % show(sm.ret, maxd=3))
+            continue
+        item = ("payload", nxt[0][1])
+        deg = [fct for fct in rest if fct[0] in ("true", "false") and fct[1][0] == "call" and fct[1][1].endswith("is_degenerate")]
+        side = [fct for fct in rest if fct[0] in ("true", "false") and fct[1][0] == "call" and fct[1][1].endswith("check_side")]
+        if len(deg) + len(side) != len(rest) or len(deg) != 1:
+            bad.append("a corner is judged by %s" % "; ".join(show_fact(x) for x in rest))
+            continue
+        closes = deg[0][0] == "true" or (side and side[0][0] == "true")
+        if closes:
+            seen.add("closes")
+            if sm.ret != ("const", True):
+                bad.append("a corner that closes the hole must make the triangle collapsed at once (returns %s)" % show(sm.ret, maxd=3))
+        else:
+            seen.add("open")
+            if sm.ret != CONTINUES and sm.ret is not None:
+                bad.append("a corner that leaves the hole open must not decide the result (returns %s)" % show(sm.ret, maxd=3))
+        for fct in side:
+            # the opposite edge of corner i: vertices (i+1)%3 .. (i+2)%3
+            ln = [n for n in walk(fct[1]) if n[0] == "call" and n[1].endswith("Line::new")]
+            i = ("field", item, 0)
+            opp = lambda k: ("index", ("field", me, vi), ("bin", "Rem", ("bin", "Add", ("const", k), i), ("const", 3)))
+            from mirq.origin import mk_bin
+            def is_opp(t, k):
+                return t[0] == "index" and t[1] == ("field", me, vi) and t[2] in (mk_bin("Rem", mk_bin("Add", ("const", k), i), ("const", 3)), mk_bin("Rem", mk_bin("Add", i, ("const", k)), ("const", 3)))
+            if len(ln) != 1 or not (is_opp(ln[0][3][0], 1) and is_opp(ln[0][3][1], 2)):
+                bad.append("corner i must be tested against its opposite edge vertices[(i+1)%%3]..vertices[(i+2)%%3]; found %s" % (show(ln[0], maxd=5) if ln else None))
+    rep.check(not bad and seen == {"none", "closes", "open"}, "R02.7", "triangle:is_collapsed",
+              "the hole test must be existential over the three corners (collapsed iff some corner is degenerate or reaches across its opposite edge): %s" % ("; ".join(sorted(set(bad))[:2]) or "cases seen %s" % sorted(seen)), at=ic.span, fn=ic.path)
